@@ -667,7 +667,6 @@ class tzfile(_tzinfo):
         lastdst = None
         lastoffset = None
         lastdstoffset = None
-        lastbaseoffset = None
         out.trans_list = []
 
         for i, tti in enumerate(out.trans_idx):
@@ -685,21 +684,23 @@ class tzfile(_tzinfo):
                     tti.dstoffset = datetime.timedelta(seconds=dstoffset)
                     lastdstoffset = dstoffset
 
-            # If a time zone changes its base offset during a DST transition,
-            # then you need to adjust by the previous base offset to get the
-            # transition time in local time. Otherwise you use the current
-            # base offset. Ideally, I would have some mathematical proof of
-            # why this is true, but I haven't really thought about it enough.
-            baseoffset = offset - dstoffset
-            adjustment = baseoffset
-            if (lastbaseoffset is not None and baseoffset != lastbaseoffset
-                    and tti.isdst != lastdst):
-                # The base DST has changed
-                adjustment = lastbaseoffset
+            # In wall-clock terms the new period starts at the transition
+            # seen through the smaller of the old and the new offset: when the
+            # offset decreases, the wall times from there up to the transition
+            # seen through the old offset occur twice (see is_ambiguous); when
+            # it increases, the ones from there up to the transition seen
+            # through the new offset are skipped.
+            if lastoffset is None:
+                lastoffset = out.ttinfo_before.offset
+            if i == timecnt - 1:
+                # From the last transition on, the zone is taken to be on
+                # its standard time (see _get_ttinfo)
+                adjustment = min(lastoffset, out.ttinfo_std.offset)
+            else:
+                adjustment = min(lastoffset, offset)
 
             lastdst = tti.isdst
             lastoffset = offset
-            lastbaseoffset = baseoffset
 
             out.trans_list.append(out.trans_list_utc[i] + adjustment)
 
@@ -797,7 +798,7 @@ class tzfile(_tzinfo):
         timestamp = _datetime_to_timestamp(dt)
         tti = self._get_ttinfo(idx)
 
-        if idx is None or idx <= 0:
+        if idx is None or idx < 0:
             return False
 
         od = self._get_ttinfo(idx - 1).offset - tti.offset
@@ -810,7 +811,7 @@ class tzfile(_tzinfo):
 
         # If we have no transitions, return the index
         _fold = self._fold(dt)
-        if idx is None or idx == 0:
+        if idx is None or idx < 0:
             return idx
 
         # If it's ambiguous and we're in a fold, shift to a different index.
